@@ -153,6 +153,41 @@ def aggregator_stage(chk, tier, seed):
     chk.ev.cov["scripted_start_solution_cases"] = n
 
 
+def antipodal_stage(chk, tier, seed):
+    """vehicles whose start and end lie on opposite sides of the globe (haversine travel, no matrix): rounding used to make the
+    haversine term exceed 1, the distance NaN and with it every score - and a NaN score passes both 'is it better' tests
+    (defect repaired in /repo: the term is capped).  Scores must be finite and the channel strictly decreasing."""
+    import random
+    rng = random.Random(seed * 131 + 606)
+    n = 12 if tier == "quick" else 300
+    blocks, meta = [], {}
+    for i in range(n):
+        lon, lat = rng.randint(-179, 0), rng.randint(-60, 60)
+        if i == 0:
+            lon, lat = -179, 6           # the reproduction of the finding
+        ve = {"id": "v0", "speed": 20, "start_location": {"lon": lon, "lat": lat}, "end_location": {"lon": lon + 180, "lat": -lat}}
+        stops = [{"id": "s%d" % k, "location": {"lon": rng.uniform(-170, 170), "lat": rng.uniform(-60, 60)}} for k in range(rng.randint(2, 5))]
+        inp = {"stops": stops, "vehicles": [ve] + ([{"id": "v1", "speed": 20, "start_location": {"lon": 0.5, "lat": 0.5}}] if rng.random() < 0.5 else [])}
+        st = {"iterations": 120, "duration_ms": 5000, "runs": rng.choice([1, 2]), "starts": rng.choice([0, 2]), "det": 1, "repeat": 1, "snap": 0}
+        blocks.append(S.raw_block("ap%d" % i, inp, st))
+        meta["ap%d" % i] = (inp, st)
+    runs, rc, err = S.run_solve_raw(blocks, "c06_antipodal_" + tier, timeout=3000)
+    chk.ob("antipodal endpoints: harness solve exits normally", rc == 0, err[-300:])
+    bad = 0
+    for (cid, rep), r in sorted(runs.items()):
+        sc = r["scores"]
+        fails = [f for f in r["flags"] if f.startswith(("score not a finite", "PANIC", "HANG"))]
+        fin = [x for x in sc if x is not None]
+        fails += ["scores on the channel not strictly decreasing: %s then %s" % (a, b) for a, b in zip(fin, fin[1:]) if not b < a]
+        if fails:
+            bad += 1
+            chk.violation({"kind": "input", "what": fails[0], "failures": fails[:5], "input": meta[cid][0], "settings": meta[cid][1],
+                           "scores": [str(x) for x in sc][:10], "how": "harness solve with this JSON input (json / gopt / build / solve lines)"})
+    chk.ob("finite, strictly decreasing scores on %d inputs with (nearly) antipodal vehicle endpoints (%d solutions)"
+           % (len(runs), sum(len(r["scores"]) for r in runs.values())), bad == 0)
+    chk.ev.cov["antipodal_inputs"] = len(runs)
+
+
 def run(tier, seed, replay=None):
     chk = FW.Check(PID, tier, seed)
     if not chk.builds(model=True, harness=True, skeletons=True):
@@ -161,6 +196,7 @@ def run(tier, seed, replay=None):
     chk.oblig("O_C06")
     scripted_stage(chk, tier, seed)
     aggregator_stage(chk, tier, seed)
+    antipodal_stage(chk, tier, seed)
     n = 40 if tier == "quick" else 600
     cases = S.make_solve_cases(seed * 31 + 6, n, settings, size="small" if tier == "quick" else "medium")
     runs, rc, err = S.run_solve(cases, "c06_" + tier)
